@@ -8,6 +8,10 @@
 //!   `T <k> <start>*k`             "Time overriden" (315-334): labels of prep time, cook time, time
 //!   `E <k> <start>*k`             any other analysis diagnostic all of whose labels are positions: a front
 //!                                 matter that serde_yaml rejected, labelled with the error location (241-250)
+//!   `F <idx|-> <k> (<start> <end>)*k`  the diagnostic whose message is the Display of the error serde_yaml
+//!                                 itself gives on the front matter text (the harness calls it the way
+//!                                 process_frontmatter does, 238): the index of the error's location (`-`: the error
+//!                                 has none) and ALL labels of the diagnostic with both ends (244-248)
 //! A label that is not a position (start != end) is printed as `!`.  `P` = the parse panicked.
 //! The message text is used only to tell which of the three diagnostics it is and, for U, to
 //! recover the key the position was looked up for.
@@ -21,17 +25,27 @@ fn main() {
     drive(|f| {
         let input = unhex(f[0]);
         let ext = Extensions::all();
-        let y = match guarded(|| {
+        let y0 = match guarded(|| {
             PullParser::new(&input, ext).find_map(|e| match e {
                 Event::YAMLFrontMatter(t) => Some((t.span().start(), t.text().into_owned())),
                 _ => None,
             })
         }) {
-            Ok(Some((off, text))) => format!("Y {} {}", off, hex(&text)),
-            Ok(None) => "Y -".to_string(),
+            Ok(v) => v,
             Err(_) => return "P".to_string(),
         };
+        let y = match &y0 {
+            Some((off, text)) => format!("Y {} {}", off, hex(text)),
+            None => "Y -".to_string(),
+        };
         let has_fm = y != "Y -";
+        // the oracle of Model/AnalysisLabels.v [FYamlErr]: serde_yaml's own verdict on the text
+        let yaml_err: Option<(String, Option<usize>)> = match &y0 {
+            Some((_, text)) => serde_yaml::from_str::<serde_yaml::Mapping>(text)
+                .err()
+                .map(|e| (e.to_string(), e.location().map(|l| l.index()))),
+            None => None,
+        };
         let parser = CooklangParser::new(ext, conv.clone());
         let res = match guarded(|| parser.parse(&input)) {
             Ok(r) => r,
@@ -48,6 +62,13 @@ fn main() {
                 .map(|(s, _)| if s.start() == s.end() { s.start().to_string() } else { "!".to_string() })
                 .collect();
             let msg: &str = &d.message;
+            if let Some((emsg, idx)) = &yaml_err {
+                if msg == emsg {
+                    let all: Vec<String> = d.labels.iter().map(|(s, _)| format!("{} {}", s.start(), s.end())).collect();
+                    let idx = idx.map(|i| i.to_string()).unwrap_or_else(|| "-".to_string());
+                    out.push(format!("F {} {} {}", idx, all.len(), all.join(" ")).trim_end().to_string());
+                }
+            }
             if let Some(rest) = msg.strip_prefix("Unsupported value for key: '") {
                 // the front matter variant has no "this value" label text; the `>>` variant labels spans
                 if has_fm && d.labels.iter().all(|(s, _)| s.start() == s.end()) {
